@@ -266,6 +266,41 @@ pub fn check_c20(model: &CN, probe: &str, stats: &mut Stats) {
     }
 }
 
+/// Eq => Hash for tags and for unresolved (Representation) nodes carrying them: the same resolved
+/// tag can be split into (handle, suffix) in several ways; whatever equality says, hashing must agree.
+pub fn check_tag_eq_hash(r: &mut Rng, stats: &mut Stats) {
+    use saphyr_parser::{ScalarStyle, Tag};
+    let full = r.pick(&["tag:yaml.org,2002:str", "tag:example.com,2000:app/x", "!local", "!", "tag:yaml.org,2002:int"]);
+    let splits: Vec<(String, String)> = (0..=full.len()).filter(|i| full.is_char_boundary(*i)).map(|i| (full[..i].to_string(), full[i..].to_string())).collect();
+    let a = splits[r.below(splits.len())].clone();
+    let b = splits[r.below(splits.len())].clone();
+    let ta = Tag { handle: a.0.clone(), suffix: a.1.clone() };
+    let tb = Tag { handle: b.0.clone(), suffix: b.1.clone() };
+    let text = r.pick(&["a", "1", "x y"]);
+    stats.cnt("tag_eq_hash_pairs", 1);
+    let case = J::obj(vec![("tag_a", J::s(&format!("{:?}", a))), ("tag_b", J::s(&format!("{:?}", b))), ("text", J::s(text))]);
+    if ta == tb && h(&ta) != h(&tb) {
+        viol(stats, "C20/hash/equal-tags".into(), format!("tags {a:?} and {b:?} compare equal but hash differently"), case.clone());
+    }
+    let ya = Yaml::Representation(text.into(), ScalarStyle::Plain, Some(ta.clone()));
+    let yb = Yaml::Representation(text.into(), ScalarStyle::Plain, Some(tb.clone()));
+    if ya == yb && h(&ya) != h(&yb) {
+        viol(stats, "C20/hash/equal-representation-nodes".into(), format!("unresolved nodes tagged {a:?} and {b:?} compare equal but hash differently"), case.clone());
+    }
+    // ... and a mapping keyed by one must find the other exactly when they are equal
+    let mut m = Mapping::new();
+    m.insert(ya.clone(), Yaml::Value(Scalar::Integer(1)));
+    let found = m.get(&yb).is_some();
+    if found != (ya == yb) {
+        viol(stats, "C20/lookup-disagrees/representation-key".into(), format!("a mapping keyed by a node tagged {a:?} {} a node tagged {b:?} although == says {}", if found { "finds" } else { "does not find" }, ya == yb), case.clone());
+    }
+    let oa = YamlOwned::Representation(text.into(), ScalarStyle::Plain, Some(ta));
+    let ob = YamlOwned::Representation(text.into(), ScalarStyle::Plain, Some(tb));
+    if oa == ob && h(&oa) != h(&ob) {
+        viol(stats, "C20/hash/equal-representation-nodes-owned".into(), format!("unresolved owned nodes tagged {a:?} and {b:?} compare equal but hash differently"), case);
+    }
+}
+
 pub fn run_c20(tier: &str, seed: u64, shard: u64, nshards: u64, scale: f64, stats: &mut Stats) {
     let thorough = tier == "thorough";
     let per = ((if thorough { 1_200_000.0 } else { 40_000.0 }) * scale) as u64 / nshards;
@@ -279,6 +314,7 @@ pub fn run_c20(tier: &str, seed: u64, shard: u64, nshards: u64, scale: f64, stat
             1 => gen_val(&mut r, 2),
             _ => gen_map(&mut r, 0),
         };
+        check_tag_eq_hash(&mut r, stats);
         let n_probes = 3;
         for _ in 0..n_probes {
             let probe = if r.chance(2, 3) {
